@@ -442,6 +442,12 @@ func checkC07(c *Ctx) {
 			}
 		}
 	}
+	// 2f. a container stored into itself or into its own element after an index assignment (a value, so never a cycle)
+	for _, init := range []string{"1:12", "[1, 2, 3]", `{"a": 1, "b": 2, "c": 3, "d": 4, "e": 5}`, `{"a": 1}`} {
+		for _, self := range []string{"a[1] = a", "a[0] = [a]", `a.z = a`, `a["a"] = {"k": a}`, "a = a + [a]", "a[1] = a; a[1] = a", "b = a; b[0] = a; a[0] = b", "f = func(p) {p[0] = p; p}; a = f(a)"} {
+			add("selfstore", fmt.Sprintf(`a = %s; a[0] = 100; %s; a[0] = 200; println(a); println(a == a, len(a), json(a))`, init, self))
+		}
+	}
 	// 3. wild untyped programs
 	nw := c.Pick(3000, 60000)
 	for i := 0; i < nw; i++ {
